@@ -9,6 +9,7 @@ def config(T):
         "C07": dict(pkg="c07", tests=[T("TestLiveSQL", 800, 32000, sq=8, st=16, race=True)]),
         "C08": dict(pkg="c08", tests=[T("TestCache", 2400, 96000, sq=8, st=16, race=True)]),
         "C10": dict(pkg="c10", tests=[T("TestBatchTransparent", 1600, 48000, sq=8, st=16, race=True)]),
+        "C11": dict(pkg="c11", tests=[T("TestPagination", 6000, 240000, sq=4, st=16)]),
         "C12": dict(pkg="c12", tests=[T("TestShardLimit", 2400, 64000, sq=4, st=16)]),
         "C13": dict(pkg="c13", tests=[T("TestCodec", 6000, 300000, sq=4, st=16), T("TestProtoFilter", 3000, 100000, sq=2, st=8)]),
         "C15": dict(pkg="c15", tests=[T("TestPinned"), T("TestDocuments", 12000, 600000, sq=4, st=16), T("TestBombs", 200, 2000, sq=2, st=4),
